@@ -1268,6 +1268,16 @@ async fn run_connection(
         }
     };
     let _ = stream.set_nodelay(true);
+    if c.get("reset_after_connect").and_then(|x| x.as_bool()).unwrap_or(false) {
+        // abortive close right after the handshake: SO_LINGER {on, 0} + close sends RST instead of FIN
+        let _ = stream.set_linger(Some(Duration::from_secs(0)));
+        drop(stream);
+        out["reset"] = json!(true);
+        if let Err(e) = run_ops(c.get("ops_before_close"), &shared, &env, &snaps).await {
+            out["error"] = json!(e);
+        }
+        return out;
+    }
     let empty = Vec::new();
     let reqs = c.get("requests").and_then(|x| x.as_array()).unwrap_or(&empty);
     let pipelined = c.get("pipelined").and_then(|x| x.as_bool()).unwrap_or(false);
